@@ -15,7 +15,7 @@ def assoc (s : State) : Option Nat :=
 /-- Operations that neither end run `r` nor begin another one: registration, disconnect, aggregator restart, tag
 messages, and a repeated RunStartedMsg of `r` itself. -/
 def quiet (r : Nat) : Op → Bool
-  | .register | .disconnect | .restart | .tags _ _ => true
+  | .register | .disconnect | .restart | .tags _ _ _ => true
   | .start q => q == r
   | .stop _ => false
 
@@ -80,12 +80,19 @@ theorem persist_mem (s : State) (m : Mem) (t : Nat) :
   · exact ⟨_, rfl, rfl⟩
   · split <;> exact ⟨_, rfl, rfl⟩
 
-theorem tagsChanged_mem (s : State) (m : Mem) (x : Option Nat) (t : Nat) (hm : s.mem = some m) :
-    ∃ m', (tagsChanged s m x t).mem = some m' ∧ m'.run = m.run := by
+@[simp] theorem upsertTags_run (m : Mem) (t : Nat) (st : Option Nat) : (upsertTags m t st).run = m.run := by
+  unfold upsertTags; split <;> rfl
+@[simp] theorem upsertTags_lastPersisted (m : Mem) (t : Nat) (st : Option Nat) :
+    (upsertTags m t st).lastPersisted = m.lastPersisted := by
+  unfold upsertTags; split <;> rfl
+
+theorem tagsChanged_mem (s : State) (m : Mem) (x : Option Nat) (t : Nat) (st : Option Nat) (hm : s.mem = some m) :
+    ∃ m', (tagsChanged s m x t st).mem = some m' ∧ m'.run = m.run := by
   unfold tagsChanged
   split
   · exact ⟨m, hm, rfl⟩
-  · exact persist_mem s _ t
+  · obtain ⟨m', h1, h2⟩ := persist_mem s (upsertTags m t st) t
+    exact ⟨m', h1, by rw [h2]; simp⟩
 
 @[simp] theorem persist_recentEngine (s : State) (m : Mem) (t : Nat) :
     (persist s m t).recentEngine = s.recentEngine := by
@@ -104,20 +111,39 @@ theorem tagsChanged_mem (s : State) (m : Mem) (x : Option Nat) (t : Nat) (hm : s
   · rfl
   · split <;> rfl
 
-@[simp] theorem tagsChanged_recentEngine (s : State) (m : Mem) (x : Option Nat) (t : Nat) :
-    (tagsChanged s m x t).recentEngine = s.recentEngine := by
+@[simp] theorem tagsChanged_recentEngine (s : State) (m : Mem) (x : Option Nat) (t : Nat) (st : Option Nat) :
+    (tagsChanged s m x t st).recentEngine = s.recentEngine := by
   unfold tagsChanged; split <;> simp
-@[simp] theorem tagsChanged_plotLogs (s : State) (m : Mem) (x : Option Nat) (t : Nat) :
-    (tagsChanged s m x t).plotLogs = s.plotLogs := by
+@[simp] theorem tagsChanged_plotLogs (s : State) (m : Mem) (x : Option Nat) (t : Nat) (st : Option Nat) :
+    (tagsChanged s m x t st).plotLogs = s.plotLogs := by
   unfold tagsChanged; split <;> simp
-@[simp] theorem tagsChanged_recentRuns (s : State) (m : Mem) (x : Option Nat) (t : Nat) :
-    (tagsChanged s m x t).recentRuns = s.recentRuns := by
+@[simp] theorem tagsChanged_recentRuns (s : State) (m : Mem) (x : Option Nat) (t : Nat) (st : Option Nat) :
+    (tagsChanged s m x t st).recentRuns = s.recentRuns := by
   unfold tagsChanged; split <;> simp
 
+/-- the tick time a persisted row gets: the newest tick time among the tags the engine data holds after the message -/
+def rowTime (m : Mem) (t : Nat) (st : Option Nat) : Nat := latestTime (upsertTags m t st) t
+
+theorem le_latestTime (m : Mem) (t : Nat) : t ≤ latestTime m t := by
+  unfold latestTime; split <;> omega
+
+/-- the row time is the message's tick time unless an older message left a newer System State time behind -/
+theorem rowTime_eq (m : Mem) (t : Nat) (st : Option Nat) (h : st.isSome ∨ m.sysTime = none ∨ ∃ u, m.sysTime = some u ∧ u ≤ t) :
+    rowTime m t st = t := by
+  unfold rowTime latestTime upsertTags
+  cases st with
+  | some v => simp
+  | none =>
+    rcases h with h | h | ⟨u, h, hu⟩
+    · simp at h
+    · simp [h]
+    · simp [h]; omega
+
 /-- A tags message adds at most one value row, and only to a plot log of the engine's current run. -/
-theorem tagsChanged_values (s : State) (m : Mem) (x : Option Nat) (t : Nat) :
-    (tagsChanged s m x t).values = s.values ∨
-    ∃ i r, (tagsChanged s m x t).values = s.values ++ [(i, t)] ∧ m.run = some r ∧ s.plotLogs[i]? = some r := by
+theorem tagsChanged_values (s : State) (m : Mem) (x : Option Nat) (t : Nat) (st : Option Nat) :
+    (tagsChanged s m x t st).values = s.values ∨
+    ∃ i r, (tagsChanged s m x t st).values = s.values ++ [(i, rowTime m t st)] ∧ m.run = some r ∧
+      s.plotLogs[i]? = some r := by
   unfold tagsChanged
   split
   · exact Or.inl rfl
@@ -126,23 +152,31 @@ theorem tagsChanged_values (s : State) (m : Mem) (x : Option Nat) (t : Nat) :
     · exact Or.inl rfl
     · rename_i r hr
       split
-      · rcases valueRows_cases s r t with h | ⟨i, h, hg⟩
-        · left; simp [h]
-        · right; exact ⟨i, r, by simp [h], hr, hg⟩
+      · split
+        · rcases valueRows_cases s r (latestTime (upsertTags m t st) t) with h | ⟨i, h, hg⟩
+          · left; simp [h]
+          · right; exact ⟨i, r, by simp [h, rowTime], by simpa using hr, hg⟩
+        · left; simp
       · exact Or.inl rfl
 
 /-- The tags message of the current run is recorded when the persistence threshold is passed and the run has a
 plot log. -/
-theorem tagsChanged_recorded (s : State) (m : Mem) (r t : Nat) (hr : m.run = some r) (hl : r ∈ s.plotLogs)
-    (hp : m.lastPersisted = none ∨ ∃ lp, m.lastPersisted = some lp ∧ lp < t) :
-    ∃ i, s.plotLogs[i]? = some r ∧ (tagsChanged s m (some r) t).values = s.values ++ [(i, t)] := by
+theorem tagsChanged_recorded (s : State) (m : Mem) (r t : Nat) (st : Option Nat) (hr : m.run = some r)
+    (hl : r ∈ s.plotLogs) (hp : m.lastPersisted = none ∨ ∃ lp, m.lastPersisted = some lp ∧ lp < t) :
+    ∃ i, s.plotLogs[i]? = some r ∧
+      (tagsChanged s m (some r) t st).values = s.values ++ [(i, rowTime m t st)] := by
   obtain ⟨i, hi, hg⟩ := idxOf?_of_mem hl
   refine ⟨i, hg, ?_⟩
+  have hle := le_latestTime (upsertTags m t st) t
   have hth : thresholdExceeded m.lastPersisted t = true := by
     rcases hp with hp | ⟨lp, hp, hlt⟩
     · simp [thresholdExceeded, hp]
     · simp [thresholdExceeded, hp, hlt]
-  simp [tagsChanged, persist, hr, hth, valueRows, hi]
+  have hth' : thresholdExceeded m.lastPersisted (latestTime (upsertTags m t st) t) = true := by
+    rcases hp with hp | ⟨lp, hp, hlt⟩
+    · simp [thresholdExceeded, hp]
+    · simp only [thresholdExceeded, hp, decide_eq_true_eq]; omega
+  simp [tagsChanged, persist, hr, hth, hth', valueRows, hi, rowTime]
 
 /-! ### createPlotLog / storeRecentRun -/
 
@@ -244,12 +278,12 @@ theorem assoc_step_quiet (c : Cfg) (s : State) (op : Op) (r : Nat) (ha : assoc s
       simp only [assoc, hm] at ha
       simp [step, hm, ha, assoc]
   | stop q => simp [quiet] at hq
-  | tags x t =>
+  | tags x t st =>
     cases hm : s.mem with
     | none => simp [step, hm, assoc] at ha ⊢; exact ha
     | some m =>
       simp only [assoc, hm] at ha
-      obtain ⟨m', h1, h2⟩ := tagsChanged_mem s m x t hm
+      obtain ⟨m', h1, h2⟩ := tagsChanged_mem s m x t st hm
       simp [step, hm, assoc, h1, h2, ha]
 
 /-- A quiet operation stores no recent run. -/
@@ -268,7 +302,7 @@ theorem recentRuns_step_quiet (c : Cfg) (s : State) (op : Op) (r : Nat) (ha : as
       simp only [assoc, hm] at ha
       simp [step, hm, ha]
   | stop q => simp [quiet] at hq
-  | tags x t => cases hm : s.mem <;> simp [step, hm]
+  | tags x t st => cases hm : s.mem <;> simp [step, hm]
 
 /-- Every run the aggregator may resume has a plot log — preserved by every operation. -/
 theorem wf_step (c : Cfg) (s : State) (op : Op) (w : WF s) : WF (step c s op).1 := by
@@ -365,14 +399,14 @@ theorem wf_step (c : Cfg) (s : State) (op : Op) (w : WF s) : WF (step c s op).1 
           simp only [storeRecentRun_recentEngine] at h
           simp only [storeRecentRun_plotLogs]
           exact w.rowLog r h
-  | tags x t =>
+  | tags x t st =>
     cases hm : s.mem with
     | none => simpa [step, hm] using w
     | some m =>
       simp only [step, hm]
       refine ⟨?_, ?_⟩
       · intro m' r h1 h2
-        obtain ⟨m'', h3, h4⟩ := tagsChanged_mem s m x t hm
+        obtain ⟨m'', h3, h4⟩ := tagsChanged_mem s m x t st hm
         rw [h3] at h1
         simp only [Option.some.injEq] at h1
         subst h1
@@ -472,20 +506,20 @@ theorem done_step (c : Cfg) (s : State) (op : Op) (r : Nat) (d : Done r s) (hne 
         simp only [Option.some.injEq] at h1
         subst h1
         simp at h2
-  | tags x t =>
+  | tags x t st =>
     cases hm : s.mem with
     | none => simp only [step, hm]; exact ⟨d, by first | rfl | trivial⟩
     | some m =>
       simp only [step, hm, tagsChanged_recentRuns]
       refine ⟨⟨?_, ?_⟩, by first | rfl | trivial⟩
       · intro m' h1 h2
-        obtain ⟨m'', h3, h4⟩ := tagsChanged_mem s m x t hm
+        obtain ⟨m'', h3, h4⟩ := tagsChanged_mem s m x t st hm
         rw [h3] at h1
         simp only [Option.some.injEq] at h1
         subst h1
         exact d.notCurrent m hm (h4 ▸ h2)
       · intro h
-        obtain ⟨m'', h3, _⟩ := tagsChanged_mem s m x t hm
+        obtain ⟨m'', h3, _⟩ := tagsChanged_mem s m x t st hm
         rw [h3] at h
         simp at h
 
@@ -493,8 +527,8 @@ theorem done_step (c : Cfg) (s : State) (op : Op) (r : Nat) (d : Done r s) (hne 
 engine is in at that moment. -/
 theorem values_step (c : Cfg) (s : State) (op : Op) :
     (step c s op).1.values = s.values ∨
-    ∃ i t r m x, op = .tags x t ∧ (step c s op).1.values = s.values ++ [(i, t)] ∧ s.mem = some m ∧ m.run = some r ∧
-      s.plotLogs[i]? = some r := by
+    ∃ i t r m x st, op = .tags x t st ∧ (step c s op).1.values = s.values ++ [(i, rowTime m t st)] ∧ s.mem = some m ∧
+      m.run = some r ∧ s.plotLogs[i]? = some r := by
   cases op with
   | register => cases hm : s.mem <;> simp [step, hm]
   | disconnect => cases hm : s.mem <;> simp [step, hm, storeRecentEngine]
@@ -515,14 +549,14 @@ theorem values_step (c : Cfg) (s : State) (op : Op) :
       left
       simp only [step, hm]
       cases hr : m.run <;> simp
-  | tags x t =>
+  | tags x t st =>
     cases hm : s.mem with
     | none => simp [step, hm]
     | some m =>
       simp only [step, hm]
-      rcases tagsChanged_values s m x t with h | ⟨i, r, h1, h2, h3⟩
+      rcases tagsChanged_values s m x t st with h | ⟨i, r, h1, h2, h3⟩
       · exact Or.inl h
-      · exact Or.inr ⟨i, t, r, m, x, rfl, h1, rfl, h2, h3⟩
+      · exact Or.inr ⟨i, t, r, m, x, st, rfl, h1, rfl, h2, h3⟩
 
 /-- Plot-log rows never move or change their run id: a value row stays attached to the run it was recorded for. -/
 theorem plotLogs_step_get (c : Cfg) (s : State) (op : Op) (i q : Nat) (h : s.plotLogs[i]? = some q) :
@@ -546,6 +580,6 @@ theorem plotLogs_step_get (c : Cfg) (s : State) (op : Op) (i q : Nat) (h : s.plo
     | some m =>
       simp only [step, hm]
       cases hr : m.run <;> simpa using h
-  | tags x t => cases hm : s.mem <;> simpa [step, hm] using h
+  | tags x t st => cases hm : s.mem <;> simpa [step, hm] using h
 
 end OPM.Reconnect
